@@ -548,3 +548,108 @@ reg(Contract(
     loops={"for:i,line": LoopSpec(_lmp_inv, ghost_init=lambda c: {k: c.st.ghost[k] for k in ("returned", "returned_boxes", "current_position", "previous_position", "coord", "box", "coord_rows")})},
     label="proved-per-shape",
 ))
+
+
+# =====================================================================================================================
+# ReadAndProcessOnTheFly.read_and_process_content: the link the two loop contracts above assume -- the processing function is
+# started exactly once on the file opened in the reader's mode and positioned at current_position; a missing file gives [].
+class RPSelf:
+    pyvc_heap_backed = True
+
+    def truth(self, st):
+        return True
+
+    def pyvc_getattr(self, attr, st, ex):
+        g = st.ghost
+        if attr in ("file_path", "read_mode", "current_position", "previous_position"):
+            return g[attr]
+        if attr == "file_object":
+            return g.get("file_object")
+        if attr == "processing_function":
+            return BoundMethod(self, "processing_function")
+        raise Unsupported(f"reader.{attr}")
+
+    def pyvc_setattr(self, attr, v, st, ex):
+        if attr != "file_object":
+            raise Unsupported(f"reader.{attr} = ...")
+        st.ghost = dict(st.ghost, file_object=v)
+
+    def pyvc_method(self, name, args, kwargs, st, ex, node):
+        if name == "processing_function":
+            g = st.ghost
+            f = g.get("file_object")
+            st.ghost = dict(g, calls=g["calls"] + [("process", args[0] is self, isinstance(f, OpenedFile), getattr(f, "pos", None))])
+            yield st, g["RESULT"]
+            return
+        raise Unsupported(f"reader.{name}")
+
+
+class OpenedFile:
+    def __init__(self, path, mode):
+        self.path, self.mode, self.pos = path, mode, None
+
+    def __pyvc_copy__(self, memo):
+        n = OpenedFile(self.path, self.mode)
+        n.pos = self.pos
+        memo[id(self)] = n
+        return n
+
+    def truth(self, st):
+        return True
+
+    def pyvc_getattr(self, attr, st, ex):
+        return BoundMethod(self, attr)
+
+    def pyvc_method(self, name, args, kwargs, st, ex, node):
+        if name == "seek":
+            self.pos = args[0]
+            yield st, args[0]
+            return
+        raise Unsupported(f"file.{name}")
+
+
+def _open(ex, st, bound, node):
+    g = st.ghost
+    missing = st.fork()
+    missing.assume(z3.Not(g["exists"]))
+    missing.exc = "FileNotFoundError"
+    from pyvc.interp import RAISE
+    from pyvc.smt import feasible
+    if feasible(missing.pc):
+        yield missing, RAISE
+    st.assume(g["exists"])
+    st.ghost = dict(st.ghost, calls=st.ghost["calls"] + [("open", bound["file"], bound["mode"])])
+    yield st, OpenedFile(bound["file"], bound["mode"])
+
+
+def _rp_make(ex, st):
+    st.ghost = dict(st.ghost, file_path=fresh("file_path", INT), read_mode=fresh("read_mode", INT), current_position=fresh("current_position", INT), previous_position=fresh("previous_position", INT),
+                    exists=fresh("file_exists", z3.BoolSort()), RESULT=fresh("RESULT", INT), calls=[])
+    return {"self": RPSelf()}
+
+
+def _rp_post(ctx):
+    g = ctx.st.ghost
+    calls = g["calls"]
+    if ctx.raised:
+        return [("never_raises_for_a_missing_file", z3.BoolVal(False))]
+    res = ctx.result
+    out = [("missing_file_gives_no_frames", z3.Implies(z3.Not(g["exists"]), z3.BoolVal(isinstance(res, list) and res == [] and not [c for c in calls if c[0] == "process"])))]
+    if [c for c in calls if c[0] == "open"]:
+        o = [c for c in calls if c[0] == "open"][0]
+        procs = [c for c in calls if c[0] == "process"]
+        out += [("opens_its_own_file_in_its_own_mode", z3.And(o[1] == g["file_path"], o[2] == g["read_mode"])),
+                ("processing_function_runs_exactly_once_on_the_reader_itself", z3.BoolVal(len(procs) == 1 and procs[0][1] and procs[0][2])),
+                ("file_is_positioned_at_current_position_first", (procs[0][3] == g["current_position"]) if procs and procs[0][3] is not None else z3.BoolVal(False)),
+                ("returns_what_the_processing_function_returned", (res == g["RESULT"]) if z3.is_expr(res) else z3.BoolVal(False))]
+    return out
+
+
+IMPORTS["open"] = __import__("pyvc.interp", fromlist=["ExtName"]).ExtName("open")
+
+
+reg(Contract(
+    "ReadAndProcessOnTheFly.read_and_process_content", src=(PARTS_PY, "ReadAndProcessOnTheFly.read_and_process_content"), cases=[Case("sym", _rp_make)],
+    ensures=[("read_and_process", _rp_post)], canaries=[("file_never_exists", lambda c: z3.Not(c.st.ghost["exists"]))],
+    overrides={"open": Contract("open", params=["file", "mode"], defaults={"mode": "r"}, custom=_open)},
+))
